@@ -214,7 +214,6 @@ static std::string run_case(const Case& c, Flags& f, Report& rep, bool excl_prep
     if (!W && br.empty() != (used == c.limit)) return at(i, "observer", std::string("empty() is ") + (br.empty() ? "true" : "false"));
     return "";
   };
-  if (c.ops.empty()) { used = 0; }
   {
     const uint64_t size = W ? bw.size() : br.size();
     if (size != 0) return "wrong-count: size() is " + u64s(size) + " right after construction at step 0";
@@ -424,7 +423,8 @@ int main(int argc, char** argv) {
     std::string key = std::string("C16|") + (c.writer ? "BoundedWriter" : "BoundedReader") + "|" + class_of(m);
     if (seen_keys.insert(key).second) rep.fail(m, case_text(c), key);
   };
-  auto account = [&](const Flags& f, const std::string& text) {
+  long sampled_exh = 0;
+  auto account = [&](const Flags& f, const std::string& text, bool random) {
     if (f.on_limit) rep.label("exactly-on-limit");
     if (f.crossing) rep.label("crossing");
     if (f.huge) rep.label("huge-n");
@@ -433,7 +433,7 @@ int main(int argc, char** argv) {
     if (f.wf_script || f.wf_cap) rep.label("wrapped-failure");
     if (f.wf_followed) rep.label("wrapped-failure-then-more-calls");
     if (f.padding) rep.label("padding");
-    if (nontrivial(f)) { rep.nontriv(hash_str(text)); rep.label("non-trivial"); if (f.on_limit && f.crossing && f.wf_followed) rep.sample(text); }
+    if (nontrivial(f)) { rep.nontriv(hash_str(text)); rep.label(random ? "non-trivial:random" : "non-trivial:exhaustive"); if (random ? (f.on_limit && f.crossing && f.wf_followed && rep.samples.size() < (text.find("side=w") != std::string::npos ? 8u : 5u)) : (sampled_exh++ % 9973 == 0 && rep.samples.size() < 2)) rep.sample(text); }
   };
 
   // (a) bounded-exhaustive enumeration
@@ -459,7 +459,7 @@ int main(int argc, char** argv) {
               Flags f;
               std::string m = run_case(c, f, rep, excl);
               if (!m.empty()) { record(m, c); failed = true; break; }
-              account(f, text);
+              account(f, text, false);
               size_t k = len;
               while (k > 0 && ++idx[k - 1] == alpha.size()) idx[--k] = 0;
               if (k == 0) break;
@@ -483,7 +483,7 @@ int main(int argc, char** argv) {
         rep.current_case = text; rep.evaluations++;
         Flags f;
         std::string m = run_case(c, f, rep, excl);
-        if (m.empty()) account(f, text);
+        if (m.empty()) account(f, text, true);
         return m;
       });
       if (!r.ok) {
